@@ -7,6 +7,7 @@ import (
 	"os/user"
 	"path/filepath"
 	"strings"
+	"syscall"
 	"time"
 
 	"verif/harness/core"
@@ -468,6 +469,51 @@ func runC16(c *core.Ctx) {
 			}
 		} else if res.Exit == 0 {
 			c.Violation("config|explicit-missing-accepted", v.what+": exit 0", doc)
+		}
+	}
+
+	// (3b) an explicitly named configuration file need not be a regular file: the null device (no entries),
+	// a symbolic link, a named pipe
+	{
+		okConf := "[Global]\nLogFileName=" + filepath.Join(e.dir, c16LogConf) + "\n"
+		os.Symlink(filepath.Join(e.dir, "ok.conf"), filepath.Join(e.dir, "link.conf"))
+		type sc struct {
+			what, path, want string
+			fifo             bool
+		}
+		for _, v := range []sc{{"--config /dev/null behaves as a file without entries", "/dev/null", "marker_log_default", false}, {"--config through a symbolic link", "link.conf", "marker_log_conf", false}, {"--config through a named pipe", "pipe.conf", "marker_log_conf", true}} {
+			if v.fifo {
+				p := filepath.Join(e.dir, v.path)
+				os.Remove(p)
+				if err := syscall.Mkfifo(p, 0o600); err != nil {
+					continue
+				}
+				go func() {
+					if w, err := os.OpenFile(p, os.O_WRONLY, 0); err == nil {
+						w.Write([]byte(okConf))
+						w.Close()
+					}
+				}()
+			}
+			args := []string{"--config", v.path, "csv", "log"}
+			res := run.Exec(c.HR, args, run.ExecOpts{Dir: e.dir, Timeout: 20 * time.Second})
+			c.Eval(1)
+			c.Nontrivial("explicit", v.what)
+			c.Count("explicit_config_cases", 1)
+			if v.fifo {
+				// release a writer that may still be blocked in open
+				if rd, err := os.OpenFile(filepath.Join(e.dir, v.path), os.O_RDONLY|syscall.O_NONBLOCK, 0); err == nil {
+					rd.Close()
+				}
+				os.Remove(filepath.Join(e.dir, v.path))
+			}
+			if res.TimedOut {
+				c.Inconclusive("config-special-files", v.what+": watchdog")
+				continue
+			}
+			if res.Exit != 0 || !strings.Contains(res.Out, v.want) {
+				c.Violation("config|explicit-existing-not-loaded", fmt.Sprintf("%s: exit %d, output %q, stderr %q", v.what, res.Exit, clip(res.Out, 80), clip(res.Serr, 120)), caseDoc{Args: args, Note: v.what, Observed: resDoc(res)})
+			}
 		}
 	}
 
